@@ -205,6 +205,8 @@ class Unit:
             return z3.ArraySort(I, z3.ArraySort(I, I))
         if key.startswith("def:"):
             return z3.ArraySort(I, B)
+        if key.startswith("g:"):
+            return z3.ArraySort(I, I)
         raise Unsupported(key)
 
     def array_axioms(self, key, A, nx, ty):
